@@ -453,3 +453,39 @@ package twig
 //@ func LoadFromCompiled props: C16
 //@   nonnil compiled
 //@   ensures err == nil ==> ret0.name == compiled.Name && ret0.source == compiled.Source && ret0.lastModified == compiled.LastModified && ret0.env == env && ret0.engine == engine
+
+// ---------------------------------------------------------------- cache and loaders (C15)
+// loader events are named, not interpreted (abstraction)
+//@ iface Loader.Load
+//@   assumed
+//@   ghostset tr emitLoad(old(tr), recv, name)
+//@   ensures ret1 == loadErr(old(tr), recv, name) && ret0 == loadSrc(old(tr), recv, name)
+//@ iface TimestampAwareLoader.GetModifiedTime
+//@   assumed
+//@   pure
+//@   ensures ret0 == mtimeOf(recv, name) && ret1 == mtimeErr(recv, name)
+//@ define cached() old(e.templates[name])
+//@ define isHit() (e.environment.cache && old(has(e.templates, name)))
+//@ define tsAware() implements(cached().loader, "TimestampAwareLoader")
+//@ defineraw LS() elemsArr(e.loaders), off(e.loaders)
+//@ define tplSame() (forall k string :: has(e.templates, k) == old(has(e.templates, k)) && (has(e.templates, k) ==> e.templates[k] == old(e.templates[k])))
+//@ impl (*Engine).Load props: C15
+//@   flag rely_tree yes
+//@   requires e.environment != nil
+//@   loop 2 invariant[C15] 0 - 1 <= rangeindex && rangeindex < len(e.loaders) && tr == loadsUpTo(old(tr), LS(), rangeindex + 1, name) && missUpTo(old(tr), LS(), rangeindex + 1, name)
+//@   ensures[C15] err == nil ==> (isHit() && ret0 == cached() && tr == old(tr)) || (exists k int :: 0 <= k && k < len(e.loaders) && missUpTo(old(tr), LS(), k, name) && loadErr(loadsUpTo(old(tr), LS(), k, name), e.loaders[k], name) == nil && tr == loadsUpTo(old(tr), LS(), k + 1, name) && ret0.source == loadSrc(loadsUpTo(old(tr), LS(), k, name), e.loaders[k], name) && ret0.name == name && ret0.loader == e.loaders[k])
+//@   ensures[C15] err == nil && !(isHit() && ret0 == cached()) && e.environment.cache ==> has(e.templates, name) && e.templates[name] == ret0
+//@   ensures[C15] !e.environment.cache || err != nil ==> tplSame()
+//@   ensures[C15] isHit() && !e.autoReload ==> err == nil && ret0 == cached() && tr == old(tr)
+//@   ensures[C15] isHit() && e.autoReload && cached().loader == nil ==> err == nil && ret0 == cached() && tr == old(tr)
+//@   ensures[C15] isHit() && e.autoReload && cached().loader != nil && !tsAware() ==> err == nil && ret0 == cached() && tr == old(tr)
+//@   ensures[C15] isHit() && e.autoReload && cached().loader != nil && tsAware() && mtimeErr(cached().loader, name) == nil && mtimeOf(cached().loader, name) <= cached().lastModified ==> err == nil && ret0 == cached() && tr == old(tr)
+// registration: the engine serves the source most recently registered under a name
+//@ func (*Engine).RegisterString props: C15
+//@   requires e.environment != nil
+//@   ensures[C15] err == nil ==> has(e.templates, name) && e.templates[name].source == source && e.templates[name].name == name
+//@   ensures[C15] err != nil ==> tplSame()
+//@ func (*Engine).RegisterTemplate props: C15
+//@   requires e.environment != nil
+//@   nonnil template
+//@   ensures[C15] has(e.templates, name) && e.templates[name] == template
